@@ -182,7 +182,7 @@ def gen_cases(tier, seed):
     dns(["r:%s:80" % hx(b"nonexistent.invalid")], "dns-unresolvable", False)
     # concurrent COLD lookups of one name with different ports (multi-threaded runtime, cache cleared before each round):
     # every request is answered with ITS port, whoever else is filling the cache at that moment (seed C07-5); no model side
-    for rounds, k in ([(150, 8)] if quick else [(600, 8), (400, 3), (300, 16)]):
+    for rounds, k in ([(1500, 8), (600, 24)] if quick else [(6000, 8), (3000, 3), (2000, 24)]):
         add("dnsrace", [rounds, k, lh], "dns-concurrent-cold", True, model=False)
     names = [b"svc.test", b"db.internal", b"a", rname(r, 254), rname(r, 255)]
     ips4 = [bytes([10, 0, 0, k]) for k in range(1, 6)]
